@@ -757,5 +757,23 @@ V("C05", "fixed-poi-fit-memo-per-model", "fire", "C05.R1", "plain fixed-POI fits
   ("src/pyhf/infer/mle.py", "    return fit(data, pdf, init_pars, par_bounds, fixed_params, **kwargs)\n", "    result = fit(data, pdf, init_pars, par_bounds, fixed_params, **kwargs)\n    if plain:\n        _PLAIN_FITS[(id(pdf), id(data), float(poi_val))] = result\n    return result\n"))
 V("C05", "fixed-poi-fit-list-copies", "silent", "", "fixed_poi_fit copies the defaults with list() instead of unpacking",
   ("src/pyhf/infer/mle.py", "    init_pars = [*(init_pars or pdf.config.suggested_init())]\n    fixed_params = [*(fixed_params or pdf.config.suggested_fixed())]\n", "    init_pars = list(init_pars or pdf.config.suggested_init())\n    fixed_params = list(fixed_params or pdf.config.suggested_fixed())\n"))
+V("C13", "minuit-jac-takes-value", "fire", "C13.R6", "Minuit's gradient function returns element 0 (the value) of the shim's pair",
+  ("src/pyhf/optimize/opt_minuit.py", "jac = lambda pars: objective_and_grad(pars)[1]", "jac = lambda pars: objective_and_grad(pars)[0]"))
+V("C13", "minuit-cost-halved", "fire", "C13.R6", "Minuit minimises half the objective while being given the full gradient",
+  ("src/pyhf/optimize/opt_minuit.py", "wrapped_objective = lambda pars: objective_and_grad(pars)[0]  # noqa: E731", "wrapped_objective = lambda pars: 0.5 * objective_and_grad(pars)[0]  # noqa: E731"))
+V("C13", "minuit-numeric-gradient", "silent", "", "Minuit is given no gradient function (it differentiates the cost numerically): nothing wrong is handed over",
+  ("src/pyhf/optimize/opt_minuit.py", "            jac = lambda pars: objective_and_grad(pars)[1]  # noqa: E731", "            jac = None"))
+V("C13", "scipy-jac-always-true", "fire", "C13.R6", "scipy told the objective returns a gradient in every mode",
+  ("src/pyhf/optimize/opt_scipy.py", "jac=do_grad,", "jac=True,"))
+V("C13", "mixin-gradient-projected-at-bounds", "fire", "C13.R6", "gradient components pushing against an active bound are zeroed between shim and minimiser",
+  ("src/pyhf/optimize/mixins.py", "        minimizer = self._get_minimizer(\n            func,", "        if do_grad and bounds is not None:\n            inner = func\n\n            def func(pars):\n                value, grad = inner(pars)\n                grad = [0.0 if ((p <= lo and g > 0) or (p >= hi and g < 0)) else g for p, g, (lo, hi) in zip(pars, grad, bounds)]\n                return value, grad\n\n        minimizer = self._get_minimizer(\n            func,"))
+V("C13", "mixin-passthrough-wrapper", "silent", "", "a wrapper between shim and minimiser that returns the wrapped value and gradient unchanged",
+  ("src/pyhf/optimize/mixins.py", "        minimizer = self._get_minimizer(\n            func,", "        inner = func\n\n        def func(pars):\n            return inner(pars)\n\n        minimizer = self._get_minimizer(\n            func,"))
+V("C13", 'model-eq-by-spec-content', 'fire', 'C13.R7', 'models compare (and hash) equal when their specifications are equal: the jit cache is shared between differently configured models',
+  ("src/pyhf/pdf.py", '    @property\n    def config(self):\n        """\n        The :class:`_ModelConfig` instance for the model.', '    def __eq__(self, other):\n        if not isinstance(other, Model):\n            return NotImplemented\n        return self.batch_size == other.batch_size and self.spec == other.spec\n\n    def __hash__(self):\n        return hash(self.batch_size)\n\n    @property\n    def config(self):\n        """\n        The :class:`_ModelConfig` instance for the model.'))
+V("C13", 'model-eq-identity', 'silent', '', 'an explicit __eq__ that is identity',
+  ("src/pyhf/pdf.py", '    @property\n    def config(self):\n        """\n        The :class:`_ModelConfig` instance for the model.', '    def __eq__(self, other):\n        return self is other\n\n    def __hash__(self):\n        return id(self)\n\n    @property\n    def config(self):\n        """\n        The :class:`_ModelConfig` instance for the model.'))
+V("C13", 'model-eq-complete', 'silent', '', 'an __eq__ that also compares interpolation settings and both clipping options',
+  ("src/pyhf/pdf.py", '    @property\n    def config(self):\n        """\n        The :class:`_ModelConfig` instance for the model.', '    def __eq__(self, other):\n        if not isinstance(other, Model):\n            return NotImplemented\n        return (\n            self.batch_size == other.batch_size\n            and self.spec == other.spec\n            and self.config.modifier_settings == other.config.modifier_settings\n            and self.main_model.clip_sample_data == other.main_model.clip_sample_data\n            and self.main_model.clip_bin_data == other.main_model.clip_bin_data\n            and self.config.poi_name == other.config.poi_name\n        )\n\n    def __hash__(self):\n        return hash(self.batch_size)\n\n    @property\n    def config(self):\n        """\n        The :class:`_ModelConfig` instance for the model.'))
 V("C13", "code4-exponent-mask-strict", "fire", "C13.R3", "code 4 takes exponent 1 (a constant) exactly at |alpha| = alpha0",
   ("src/pyhf/interpolators/code4.py", "            exponents >= self.__alpha0, exponents, self.ones", "            exponents > self.__alpha0, exponents, self.ones"))
